@@ -39,14 +39,26 @@ func c09chdir(c *Ctx) {
 		f := Format(idx % 3)
 		privacy := (idx/3)%2 == 1
 		frame := []string{"lib", "own"}[(idx/2)%2]
-		desc := map[string]any{"history": kind, "dir_before": dirA, "dir_at_the_probe": dirB, "format": f.String(), "privacy_flag": privacy, "frame": frame}
+		// what the application does between the history and the probe, besides changing the directory: nothing; it applies
+		// the time zone of its configuration (TZ; the probe's instant carries a zone of its own, the logger is in local-time
+		// mode); it empties the table of known paths, or takes the home directory out of it (the frame lies under $HOME)
+		mid := []string{"-", "set-TZ", "reset-known-paths", "remove-home-from-known-paths", "set-TZ"}[(idx/5)%5]
+		home := os.Getenv("HOME")
+		if mid == "reset-known-paths" || mid == "remove-home-from-known-paths" {
+			privacy = true
+			home = map[string]string{"lib": filepath.Dir(libDir), "own": filepath.Dir(filepath.Dir(ownDir))}[frame]
+		}
+		desc := map[string]any{"history": kind, "dir_before": dirA, "dir_at_the_probe": dirB, "format": f.String(), "privacy_flag": privacy, "frame": frame, "between_history_and_probe": mid, "HOME": home}
+		c.R.Distinct("actions_between_history_and_probe", mid)
 		c.R.Distinct("chdir_history_kinds", kind)
 		c.R.Distinct("chdir_directories", dirA+" -> "+dirB)
 		run := func(hist string) ([]byte, bool) {
 			base := filepath.Join(here, fmt.Sprintf("c09chdir-%d-%s", idx, hist))
 			os.Remove(base + ".rec")
-			x := fmt.Sprintf("hist=%s,a=%s,b=%s,fmt=%d,privacy=%v,frame=%s,n=%d", hist, dirA, dirB, int(f), privacy, frame, idx)
+			x := fmt.Sprintf("hist=%s,a=%s,b=%s,fmt=%d,privacy=%v,frame=%s,n=%d,mid=%s", hist, dirA, dirB, int(f), privacy, frame, idx, mid)
+			probeHome = home
 			exit, to, se := runProbeFor(c, "C09", false, base, x)
+			probeHome = ""
 			c.R.Add("probe_processes", 1)
 			if to {
 				c.R.Add("watchdog_timeouts", 1)
@@ -71,7 +83,7 @@ func c09chdir(c *Ctx) {
 		c.R.Add("probe_pairs_compared", 1)
 		if !bytes.Equal(ref, got) {
 			c.R.Violation(idx, "bytes-differ", "C09/bytes-differ/after-chdir/"+f.String(),
-				fmt.Sprintf("the same WriteThru call (caller information on) in two processes that both went chdir(%s), chdir(%s): one of them had logged (%s) while in the first directory, and the payloads differ:\n without that history: %s\n with it:              %s", dirA, dirB, kind, q(clip(string(ref), 400)), q(clip(string(got), 400))), desc)
+				fmt.Sprintf("the same WriteThru call (caller information on) in two processes that both went chdir(%s), [between: "+mid+"], chdir(%s): one of them had logged (%s) while in the first directory, and the payloads differ:\n without that history: %s\n with it:              %s", dirA, dirB, kind, q(clip(string(ref), 400)), q(clip(string(got), 400))), desc)
 			return
 		}
 		c.R.NonTrivial("chdir", kind, string(ref))
@@ -89,6 +101,10 @@ func c09exec(c *Ctx, out string) {
 	flags := slog.Lcaller
 	if c.X("privacy", "false") == "true" {
 		flags |= slog.Lprivacypath
+	}
+	mid := c.X("mid", "-")
+	if mid == "set-TZ" {
+		flags |= slog.LlocalTime
 	}
 	slog.SetFlags(flags)
 	pc := thePC
@@ -119,6 +135,17 @@ func c09exec(c *Ctx, out string) {
 		slog.RemoveFlags(slog.Lcaller)
 		boot.Info("starting", "n", n)
 		slog.SetFlags(flags)
+	}
+	switch mid {
+	case "set-TZ":
+		os.Setenv("TZ", []string{"Asia/Tokyo", "America/New_York", "UTC-3"}[n%3])
+		if n%2 == 1 {
+			ts = ts.In(time.FixedZone("svc", 5*3600+1800))
+		}
+	case "reset-known-paths":
+		slog.ResetKnownPathMapping()
+	case "remove-home-from-known-paths":
+		slog.RemoveKnownPathMapping(os.Getenv("HOME"))
 	}
 	if err := os.Chdir(c.X("b", "/")); err != nil {
 		fmt.Fprintln(os.Stderr, "chdir:", err)
